@@ -99,6 +99,30 @@ fn main() {
         for l in &lines { writeln!(tr, "{}", l).unwrap(); }
         if samples.len() < 2 && bad.is_some() && case > 1 { samples.push(lines.join(" ; ")); }
     }
-    std::fs::write(&a[4], format!("{{\"cases\":{},\"write_fault_cases\":{},\"cases_with_failing_member\":{},\"old_descriptors_checked\":{},\"symlinked_outputs\":{},\"output_files_checked\":{},\"monitor_failures\":[{}],\"samples\":[{}]}}",
-        n_cases, fault_cases, failing_cases, readers_checked, n_symlinked, outputs, fails.join(","), samples.iter().map(|s| jstr(s)).collect::<Vec<_>>().join(","))).unwrap();
+    // ---- concurrent restores of one output path (two hits for the same output at the same moment: duplicate rules under -j, a retried compile):
+    //      both must succeed, the path must hold one of the two objects completely, nothing else may be left in the directory
+    let conc_rounds = (n_cases / 40).max(3).min(25); let mut conc_done = 0u64;
+    for round in 0..conc_rounds {
+        let dir = tempfile::tempdir().unwrap(); let out = dir.path().join("out0.o");
+        std::fs::write(&out, body(0, 1, 3)).unwrap();
+        let mk = |v: u64, n: u64| { let mut w = CacheWrite::new(); w.put_object("obj0", &mut Cursor::new(body(0, v, n)), Some(0o100644)).unwrap(); w.finish().unwrap() };
+        let (na, nb) = (200_000 + rng.below(200_000), 100_000 + rng.below(300_000));
+        let (ea, eb) = (mk(2, na), mk(3, nb));
+        let objs = |p: &std::path::Path| vec![FileObjectSource { key: "obj0".into(), path: p.to_path_buf(), optional: false }];
+        let h = rt.handle().clone(); let (oa, ob) = (objs(&out), objs(&out));
+        let (ra, rb) = rt.block_on(async {
+            let ta = tokio::spawn({ let h = h.clone(); async move { CacheRead::from(Cursor::new(ea)).unwrap().extract_objects(oa, &h).await } });
+            let tb = tokio::spawn({ let h = h.clone(); async move { CacheRead::from(Cursor::new(eb)).unwrap().extract_objects(ob, &h).await } });
+            (ta.await.unwrap(), tb.await.unwrap()) });
+        conc_done += 1;
+        let ops = vec![format!("round {}: two extract_objects calls at once onto one existing output path (objects of {} and {} lines)", round, na, nb)];
+        if ra.is_err() || rb.is_err() { fails.push(fail_json("concurrent_restore_failed", &format!("one of two simultaneous restores of the same output failed: {:?} / {:?}", ra.as_ref().err().map(|e| format!("{:#}", e)), rb.as_ref().err().map(|e| format!("{:#}", e))), &ops, "")); }
+        match decode(&std::fs::read(&out).unwrap_or_default()) {
+            Some((0, v, wr, tot)) if (v == 2 || v == 3) && wr == tot => {}
+            other => fails.push(fail_json("mixed_output", &format!("after two simultaneous restores the output holds neither object completely: {:?}", other), &ops, "")) }
+        let left: Vec<String> = std::fs::read_dir(dir.path()).unwrap().flatten().map(|e| e.file_name().to_string_lossy().to_string()).filter(|n| n != "out0.o").collect();
+        if !left.is_empty() { fails.push(fail_json("temp_left_behind", &format!("after two simultaneous restores: {:?}", left), &ops, "")); }
+    }
+    std::fs::write(&a[4], format!("{{\"cases\":{},\"concurrent_restore_rounds\":{},\"write_fault_cases\":{},\"cases_with_failing_member\":{},\"old_descriptors_checked\":{},\"symlinked_outputs\":{},\"output_files_checked\":{},\"monitor_failures\":[{}],\"samples\":[{}]}}",
+        n_cases, conc_done, fault_cases, failing_cases, readers_checked, n_symlinked, outputs, fails.join(","), samples.iter().map(|s| jstr(s)).collect::<Vec<_>>().join(","))).unwrap();
 }
